@@ -1453,7 +1453,7 @@ class C08(core.Check):
         ops = case["ops"]
         for i in range(len(ops) - 1, -1, -1):
             yield dict(case, ops=ops[:i] + ops[i + 1:])
-        for i in range(len(ops)):
+        for i in range(len(ops) - 1):
             yield dict(case, ops=ops[:i + 1])
 
     # ---------- not case-shaped: what the model's abstraction relies on in the source ----------
